@@ -97,3 +97,34 @@ Proof.
   split; [vm_compute; reflexivity|]. split; [vm_compute; reflexivity|]. split; [vm_compute; reflexivity|].
   vm_compute. reflexivity.
 Qed.
+
+(* ws_clean is outside class 3 too: every hypothesis of Proofs.C06Multi.multi_end_to_end holds of it *)
+Example multi_end_to_end_nonvacuous :
+  forallb (file_unambiguous uc_exec [] []) ws_clean = true /\
+  exists arrivals, parse_workspace uc_exec [] [] (@rev _) ws_clean = Ok arrivals /\
+                   all_distinct (collect arrivals) /\ ws_ambiguity (collect arrivals) = None.
+Proof.
+  split; [vm_compute; reflexivity|]. eexists. split; [vm_compute; reflexivity|].
+  split; [apply all_distinct_b_ok; vm_compute; reflexivity|vm_compute; reflexivity].
+Qed.
+
+(* ---------- class 3 (visitors.rs:156) ----------
+   app/src/m.rs: use alpha::Item;  #[typeshare] pub struct A0 { pub f_Item: Item }   ... beta::Item ... (a qualified path)
+   The file's import candidates are (alpha, Item) and (beta, Item); reconcile_referenced_types keeps the first in
+   iteration order. *)
+Definition ws_file_amb : list ws_entry :=
+  [m_entry (lit "app") (lit "m.rs")
+     (w_file [w_use (lit "alpha") (lit "Item"); w_struct [] (lit "A0") [w_fld (lit "f_Item") (w_ty (lit "Item"))]]
+             [[lit "typeshare"]; [lit "Item"]; [lit "beta"; lit "Item"]])].
+
+Definition kept_imports (ho_file : list imported -> list imported) (ws : list ws_entry) : list (str * list imported) :=
+  match parse_workspace uc_exec [] [] ho_file ws with
+  | Ok arrivals => map (fun a => (fst a, p_imports (snd a))) arrivals
+  | _ => []
+  end.
+
+Theorem file_ambiguous_refuted :
+  forallb (file_unambiguous uc_exec [] []) ws_file_amb = false /\
+  kept_imports idl ws_file_amb = [(lit "app", [{| base_crate := lit "alpha"; type_name := lit "Item" |}])] /\
+  kept_imports (@rev _) ws_file_amb = [(lit "app", [{| base_crate := lit "beta"; type_name := lit "Item" |}])].
+Proof. split; [vm_compute; reflexivity|]. split; vm_compute; reflexivity. Qed.
